@@ -542,10 +542,10 @@ func (env *ExecEnv) join(fields ...*field) *field {
 // ifs returns a separator determined by the IFS variable.
 func (env *ExecEnv) ifs() string {
 	if v, set := env.Get("IFS"); set {
-		if v.Value != "" {
-			return v.Value[:1]
-		}
-		return ""
+		// the first character; an invalid byte is a character of
+		// its own
+		_, w := utf8.DecodeRuneInString(v.Value)
+		return v.Value[:w]
 	}
 	return " "
 }
